@@ -21,6 +21,10 @@ type params struct {
 	NumReqs int `json:"num_reqs"`
 	Cuts    int `json:"cuts"` // 0 = every distinct event time (capped by MaxCuts)
 	MaxCuts int `json:"max_cuts"`
+	// Kind, when set, makes every case of the batch an assembly of that kind ("net" | "dm"); a quarter of the batches.
+	Kind    string `json:"kind,omitempty"`
+	NetMsgs int    `json:"net_msgs,omitempty"`
+	DMMoves int    `json:"dm_moves,omitempty"`
 }
 
 func main() {
@@ -29,25 +33,37 @@ func main() {
 		ID:    "C06",
 		Level: "fault_enumeration",
 		Rule: "each evaluation is one assembly; inside it every selected (assembly, cut time t) pair is checked: the assembly is a PRNG-drawn memory hierarchy (caches, ROB, ideal/banked/DRAM memory) or translation stack (address translator, TLBs, MMU cache, GMMU, MMU, page table) with " +
-			"serialisable scripted drivers); cut points are distinct event times of the uninterrupted reference run (first, last, one between two events, one beyond the end and PRNG-sampled ones in quick; " +
+			"serialisable scripted drivers), and in a quarter of the batches a network-on-chip built with the library connectors (2D/3D mesh, PCIe tree, generic switch tree; switches, endpoints, links and 2-9 serialisable traffic agents " +
+			"whose receive side stalls) or a data mover between 1-2 interleaved ideal controllers per side with a serialisable requester (single and queued moves, sizes multiple and non-multiple of the granules); cut points are distinct event times of the uninterrupted reference run (first, last, one between two events, one beyond the end and PRNG-sampled ones in quick; " +
 			"every one up to a cap in thorough). Run-to-t + save (one process), rebuild + load + run (a fresh process per cut) must reproduce the reference's remaining BeforeEvent trace and every entity's " +
 			"final checkpoint payload, engine time and ID counter. A cut is non-trivial when messages sit in port buffers or requests are outstanding at t; distinct_nontrivial counts distinct (configuration, t) pairs",
 		Assumptions: []string{"tracing off (vis tracing not started), as documented for checkpoints", "the ID generator is the default sequential one"},
 		Plan: func(tier string, seed int64) []kit.Batch {
 			nb, n := 16, 1
-			p := params{NumReqs: 120, Cuts: 5}
+			p := params{NumReqs: 120, Cuts: 5, NetMsgs: 100, DMMoves: 10}
 			if tier == "thorough" {
 				nb, n = 32, 6
-				p = params{NumReqs: 250, Cuts: 0, MaxCuts: 60}
+				p = params{NumReqs: 250, Cuts: 0, MaxCuts: 60, NetMsgs: 250, DMMoves: 25}
 			}
 			var bs []kit.Batch
 			for i := 0; i < nb; i++ {
-				bs = append(bs, kit.Batch{Name: fmt.Sprintf("asm%d", i), Seed: seed*104729 + int64(i), N: n, Params: kit.MkParams(p)})
+				q, name, cases := p, fmt.Sprintf("asm%d", i), n
+				switch i % 8 { // a quarter of the batches: network and data-mover assemblies
+				case 3:
+					q.Kind, name = "net", fmt.Sprintf("net%d", i)
+				case 7:
+					q.Kind, name = "dm", fmt.Sprintf("dm%d", i)
+				}
+				if q.Kind != "" && tier != "thorough" {
+					cases = 2 // their runs are short (few thousand events): two assemblies per batch cost about what one hierarchy does
+				}
+				bs = append(bs, kit.Batch{Name: name, Seed: seed*104729 + int64(i), N: cases, Params: kit.MkParams(q)})
 			}
 			return bs
 		},
-		Run:         run,
-		MustObserve: []string{"cuts_checked", "cuts_with_inflight_messages"},
+		Run: run,
+		MustObserve: []string{"cuts_checked", "cuts_with_inflight_messages", "assemblies/network", "assemblies/data-mover",
+			"cuts_with_inflight_messages/network", "cuts_with_inflight_messages/data-mover"},
 	})
 }
 
@@ -55,6 +71,21 @@ func run(b kit.Batch, r *kit.R) {
 	var p params
 	b.P(&p)
 	r.ForEach(b.N, func(c *kit.Case) {
+		switch p.Kind {
+		case "net":
+			cfg := sim.RandomNetCfg(c.Rng, p.NetMsgs)
+			c.Desc(cfg)
+			r.Count("assemblies/network", 1)
+			r.Count("assemblies/network/"+cfg.Family, 1)
+			CheckCuts(c, "net", cfg, p, p.NetMsgs)
+			return
+		case "dm":
+			cfg := sim.RandomDMCfg(c.Rng, p.DMMoves)
+			c.Desc(cfg)
+			r.Count("assemblies/data-mover", 1)
+			CheckCuts(c, "dm", cfg, p, 10*p.DMMoves)
+			return
+		}
 		if c.Rng.Intn(3) == 0 {
 			cfg := sim.RandomVMCfg(c.Rng, p.NumReqs)
 			c.Desc(cfg)
@@ -134,6 +165,12 @@ func CheckCuts(c *kit.Case, kind string, cfg any, p params, nreq int) {
 		if sv.InFlight[i] > 0 {
 			r.Count("cuts_with_inflight_messages", 1)
 			r.Max("max_inflight_at_cut", int64(sv.InFlight[i]))
+			switch kind {
+			case "net":
+				r.Count("cuts_with_inflight_messages/network", 1)
+			case "dm":
+				r.Count("cuts_with_inflight_messages/data-mover", 1)
+			}
 			c.Nontrivial(fmt.Sprintf("%s@%d", cfgJSON, t))
 		}
 		want := sim.SuffixAfter(tr, timing.VTimeInPicoSec(t))
